@@ -861,6 +861,42 @@ def close_window(rng, i):
         steps.append({"do": "drain", "c": c})
     steps.append(op("A", "qos"))
     return {"kind": "listener-closewindow", "cfg": {}, "steps": steps}
+
+
+def cancel_close_race(rng, i):
+    """The call in flight on a channel is the cancel of one of its MANY consumers (receivers held by the
+    Consumer objects only); the server answers with a close (of the channel / of the connection) instead
+    of CancelOk.  The caller returns with the close error and lets go of its Consumer at once - while the
+    I/O thread may still be going round telling the channel's other consumers.  Only that channel (resp.
+    nothing but the connection) may be affected, and the close must be answered and reported."""
+    conn = i % 3 == 2
+    steps, ids = opens(1 if conn else 2, rng.sample(range(1, 30), 1 if conn else 2))
+    n = rng.choice([600, 1200])
+    for k in range(n):
+        steps.append({"do": "consume", "h": "A", "as": "x%d" % k, "keep": False})
+    steps.append({"do": "hold", "ch": ids["A"]})
+    steps.append({"do": "mark"})
+    victim = "x%d" % rng.randrange(n)
+    steps.append({"do": "cancel", "h": "A", "c": victim, "async": True})
+    steps.append({"do": "dropc", "h": "A", "c": victim, "async": True})
+    steps.append({"do": "await", "ev": "c2s", "n": 1})
+    steps.append({"do": "sync"})
+    if conn:
+        steps.append(srv({"k": "connclose", "code": 320, "text": "CONNECTION_FORCED - x"}))
+    else:
+        steps.append(srv({"k": "chclose", "ch": ids["A"], "code": 406, "text": "PRECONDITION_FAILED - x"}))
+    steps.append({"do": "wait", "who": "A"})
+    steps.append({"do": "sync"})
+    steps.append({"do": "unhold", "ch": ids["A"], "discard": True})
+    steps.append(op("A", "qos"))
+    if not conn:
+        steps.append(op("B", "declare"))
+        steps.append({"do": "open", "as": "Z", "req": ids["A"]})
+        steps.append(op("Z", "qos"))
+    steps.append({"do": "closeconn"})
+    return {"kind": ("connclose" if conn else "chanclose") + "-cancel-race", "cfg": {}, "steps": steps}
+
+
 def backlog(rng, i):
     """More than a megabyte queued behind a stalled transport, then drained by short writes that
     never block again (large accepts, but smaller than the backlog)."""
@@ -1243,7 +1279,7 @@ def batches(rng, maxlen, bases, reps=1):
     return res
 
 
-FAMILIES = {"close_window": close_window, "pressure": pressure, "midframe_close": midframe_close, "undrained": undrained, "connclose_cross": connclose_cross, "reply_then_close": reply_then_close, "chclose_cross": chclose_cross, "listener_split": listener_split, "mixed": mixed, "pubflags": pubflags, "backlog": backlog, "hb_silence": hb_silence, "listener_cross": listener_cross, "close_slow": close_slow, "consumer_drop": consumer_drop, "rpc": rpc, "content": content, "consumer": consumer, "listeners": listeners,
+FAMILIES = {"cancel_close_race": cancel_close_race, "close_window": close_window, "pressure": pressure, "midframe_close": midframe_close, "undrained": undrained, "connclose_cross": connclose_cross, "reply_then_close": reply_then_close, "chclose_cross": chclose_cross, "listener_split": listener_split, "mixed": mixed, "pubflags": pubflags, "backlog": backlog, "hb_silence": hb_silence, "listener_cross": listener_cross, "close_slow": close_slow, "consumer_drop": consumer_drop, "rpc": rpc, "content": content, "consumer": consumer, "listeners": listeners,
             "connclose": connclose, "chanclose": chanclose}
 
 
